@@ -35,6 +35,11 @@ EXCLUDE = {
 PATH_BASED = {"nsi_average_path_length", "nsi_closeness", "nsi_harmonic_closeness", "nsi_exponential_closeness",
               "nsi_global_efficiency", "nsi_betweenness", "nsi_interregional_betweenness"}
 NEEDS_CONNECTED = {"nsi_closeness"}
+NO_KEY = {"nsi_bildegree"}      # the library asserts `key is None` ("not implemented with key yet")
+# rational measures of degree >= 3 in the weights: decided per concrete topology (bits mode -> NRA `unknown`)
+TOPOLOGIES = PATH_BASED | {"nsi_local_cyclemotif_clustering", "nsi_local_midmotif_clustering", "nsi_local_inmotif_clustering",
+                           "nsi_local_outmotif_clustering", "nsi_local_clustering", "nsi_global_clustering",
+                           "nsi_local_soffer_clustering"}
 DIRECTED_OK = {"nsi_degree", "nsi_indegree", "nsi_outdegree", "nsi_bildegree", "nsi_local_cyclemotif_clustering",
                "nsi_local_midmotif_clustering", "nsi_local_inmotif_clustering", "nsi_local_outmotif_clustering"}
 
@@ -64,6 +69,18 @@ def call_measure(net, name, kw):
     return f(**{k: v for k, v in kw.items() if k in ("key", "typical_weight")})
 
 
+def neq(a, b):
+    """'differs' in the sense of the statement: undefined (NaN/inf) on both sides counts as equal"""
+    a, b = pe._num(a), pe._num(b)
+    if isinstance(a, sx.NF) or isinstance(b, sx.NF):
+        a, b = sx.to_nf(a), sx.to_nf(b)
+        same = sx.or_(sx.and_(a.nan, b.nan), sx.and_(sx.not_(a.nan), sx.not_(b.nan), sx.eq(a.val, b.val)))
+        return sx.not_(same)
+    if isinstance(a, pe._Inf) or isinstance(b, pe._Inf):
+        return not (isinstance(a, pe._Inf) and isinstance(b, pe._Inf) and a.sign == b.sign)
+    return sx.ne(a, b)
+
+
 def compare(r1, r2, n, v):
     """list of (label, bad) per the statement: global equal; per-node equal off v, both twins carry v's value;
     pairwise equal on untouched pairs"""
@@ -71,17 +88,17 @@ def compare(r1, r2, n, v):
     b = np.asarray(r2, dtype=object) if isinstance(r2, np.ndarray) else r2
     bads = []
     if not isinstance(a, np.ndarray) or a.ndim == 0:
-        bads.append(("global", sx.ne(pe._num(a if not isinstance(a, np.ndarray) else a.item()),
-                                     pe._num(b if not isinstance(b, np.ndarray) else b.item()))))
+        bads.append(("global", neq(a if not isinstance(a, np.ndarray) else a.item(),
+                                   b if not isinstance(b, np.ndarray) else b.item())))
     elif a.ndim == 1 and a.shape[0] == n:
         for i in range(n):
-            bads.append((f"node{i}", sx.ne(pe._num(a[i]), pe._num(b[i]))))
-        bads.append((f"twin", sx.ne(pe._num(a[v]), pe._num(b[n]))))
+            bads.append((f"node{i}", neq(a[i], b[i])))
+        bads.append((f"twin", neq(a[v], b[n])))
     elif a.ndim == 2 and a.shape == (n, n):
         for i in range(n):
             for j in range(n):
                 if i != v and j != v:
-                    bads.append((f"pair{i},{j}", sx.ne(pe._num(a[i, j]), pe._num(b[i, j]))))
+                    bads.append((f"pair{i},{j}", neq(a[i, j], b[i, j])))
     else:
         raise pe.Unsupported(f"result shape {getattr(a, 'shape', None)}")
     return bads
@@ -162,7 +179,7 @@ def ob_split(name, meas, variant, n, directed, graphs=None):
                     if bad is False:
                         continue
                     nq += 1
-                    vd, m = Q.check(hyps + path.cond() + [bad], 40, tag=f"{name}|v={v}|{label}")
+                    vd, m = Q.check(hyps + path.cond() + [bad], 20, tag=f"{name}|v={v}|{label}")
                     if vd == "sat":
                         sat_w = witness(m, meas, kw, n, directed, A, w, p, W, v, hyps + path.cond(), bad, G)
                         break
@@ -280,24 +297,35 @@ def obligations(tier):
     obs = []
     for meas, params in registry():
         variants = [set()]
-        if "key" in params:
+        if "key" in params and meas not in NO_KEY:
             variants.append({"key"})
         if "typical_weight" in params:
             variants.append({"typical_weight"})
-        if "key" in params and "typical_weight" in params and th:
+        if "key" in params and "typical_weight" in params and th and meas not in NO_KEY:
             variants.append({"key", "typical_weight"})
         for var in variants:
             tag = "+".join(sorted(var)) or "plain"
-            if meas in PATH_BASED:
+            if meas in TOPOLOGIES:
                 for n in ((3, 4) if not th else (3, 4, 5)):
                     graphs = list(gk.all_graphs(n))
                     if meas in NEEDS_CONNECTED:
                         graphs = [G for G in graphs if connected(G)]
+                    if n == 5 and meas not in PATH_BASED:
+                        import random
+                        graphs = random.Random(core.SEED).sample(graphs, 128)
                     step = 16 if n <= 4 else 32
                     for ci in range(0, len(graphs), step):
                         nm = f"C02|{meas}|{tag}|topologies n={n}#{ci // step}"
                         obs.append((ob_split, dict(name=nm, meas=meas, variant=var, n=n, directed=False,
                                                    graphs=graphs[ci:ci + step]), 1500))
+                if meas in DIRECTED_OK:
+                    for n in ((2, 3) if not th else (2, 3)):
+                        graphs = list(all_digraphs(n))
+                        step = 16
+                        for ci in range(0, len(graphs), step):
+                            nm = f"C02|{meas}|{tag}|directed topologies n={n}#{ci // step}"
+                            obs.append((ob_split, dict(name=nm, meas=meas, variant=var, n=n, directed=True,
+                                                       graphs=graphs[ci:ci + step]), 1500))
             else:
                 for n in ((3, 4) if not th else (3, 4, 5)):
                     nm = f"C02|{meas}|{tag}|bits n={n}"
@@ -312,6 +340,15 @@ def obligations(tier):
     except ImportError:
         pass
     return obs
+
+
+def all_digraphs(n):
+    pairs = [(i, j) for i in range(n) for j in range(n) if i != j]
+    for bitsv in itertools.product((0, 1), repeat=len(pairs)):
+        A = [[0] * n for _ in range(n)]
+        for (i, j), b in zip(pairs, bitsv):
+            A[i][j] = b
+        yield A
 
 
 def connected(G):
@@ -351,12 +388,13 @@ def replay(w):
     r1 = np.asarray(call_measure(net, w["measure"], kw), dtype=float)
     r2 = np.asarray(call_measure(net2, w["measure"], kw), dtype=float)
     tol = 1e-7
+    cl = lambda x, y: np.allclose(x, y, rtol=tol, atol=tol, equal_nan=True)
     if r1.ndim == 0:
-        bad = abs(r1 - r2) > tol * max(1, abs(r1))
+        bad = not cl(r1, r2)
     elif r1.ndim == 1:
-        bad = (not np.allclose(r1, r2[:n], rtol=tol, atol=tol)) or abs(r1[v] - r2[n]) > tol * max(1, abs(r1[v]))
+        bad = (not cl(r1, r2[:n])) or not cl(r1[v], r2[n])
     else:
         keep = [i for i in range(n) if i != v]
-        bad = not np.allclose(r1[np.ix_(keep, keep)], r2[np.ix_(keep, keep)], rtol=tol, atol=tol)
+        bad = not cl(r1[np.ix_(keep, keep)], r2[np.ix_(keep, keep)])
     return bool(bad), (f"Network.{w['measure']}({kw}) A={A.tolist()} w={wt.tolist()} split node {v} proportion {p}: "
                        f"before {np.round(r1, 6).tolist()} after {np.round(r2, 6).tolist()}")
